@@ -53,7 +53,7 @@ end St
 def peekScheduledAction (c s : List (Option SchedAction)) (now : Int) : Nat :=
   let f := fun (earliest : Nat) (a : Option SchedAction) =>
     match a with
-    | some a => if a.time ≥ now && durSince a.time now < earliest then durSince a.time now else earliest
+    | some a => if a.time ≥ now && dsince a.time now < earliest then dsince a.time now else earliest
     | none => earliest
   s.foldl f (c.foldl f durMax)
 
@@ -61,16 +61,16 @@ def peekScheduledAction (c s : List (Option SchedAction)) (now : Int) : Nat :=
 def peekScheduledInternalTimer (c s : List (Option Int)) (now : Int) : Nat :=
   let f := fun (earliest : Nat) (t : Option Int) =>
     match t with
-    | some t => if t ≥ now && durSince t now < earliest then durSince t now else earliest
+    | some t => if t ≥ now && dsince t now < earliest then dsince t now else earliest
     | none => earliest
   s.foldl f (c.foldl f durMax)
 
 /-- `peek_blocked_exp` -/
 def peekBlockedExp (c s : Option Int) (now : Int) : Nat × Bool :=
   match c, s with
-  | some c, some s => if c < s then (durSince c now, true) else (durSince s now, false)
-  | some c, none => (durSince c now, true)
-  | none, some s => (durSince s now, false)
+  | some c, some s => if c < s then (dsince c now, true) else (dsince s now, false)
+  | some c, none => (dsince c now, true)
+  | none, some s => (dsince s now, false)
   | none, none => (durMax, true)
 
 /-- `peek_queue_earliest_side` -/
@@ -83,13 +83,13 @@ def peekQueueEarliestSide (sq : SimQueue) (blockingUntil : Option Int) (bypassab
   | none, none => (durMax, .blocking, isClient)
   | none, some n =>
     let nt := if nq = .base then n.time + delaySum else n.time
-    (durSince nt now, nq, isClient)
-  | some b, none => (durSince (max b.time bu) now, bq, isClient)
+    (dsince nt now, nq, isClient)
+  | some b, none => (dsince (max b.time bu) now, bq, isClient)
   | some b, some n =>
     let nt := if nq = .base then n.time + delaySum else n.time
     let bt := max b.time bu
     let blockingFirst := if bt < nt then true else if nt < bt then false else nq != .base
-    if blockingFirst then (durSince bt now, bq, isClient) else (durSince nt now, nq, isClient)
+    if blockingFirst then (dsince bt now, bq, isClient) else (dsince nt now, nq, isClient)
 
 /-- `peek_queue` -/
 def peekQueue {σ} (st : St σ) (earliest : Nat) : Except SimFault (Nat × Queue × Bool) :=
@@ -226,48 +226,99 @@ def pickMeasure (st : St σ) : Nat :=
     + (st.client.schedTimer.filter Option.isSome).length + (st.server.schedTimer.filter Option.isSome).length
     + (st.client.schedAction.filter Option.isSome).length + (st.server.schedAction.filter Option.isSome).length
 
+/-- which branch `pick_next` takes -/
+inductive Pick where
+  | nothing
+  | agg
+  | blockExp (b : Nat) (isClient : Bool)
+  | queue (q : Nat) (qid : Queue) (isClient : Bool)
+  | timer (i : Nat)
+  | action (s : Nat)
+  deriving Repr, DecidableEq, Inhabited
+
+/-- the five candidate offsets and the priority n, b, q, i, s of `pick_next` -/
+def pickDecide (st : St σ) : Except SimFault Pick := do
+  let now := st.now
+  let s := peekScheduledAction st.client.schedAction st.server.schedAction now
+  let i := peekScheduledInternalTimer st.client.schedTimer st.server.schedTimer now
+  let (b, bIsClient) := peekBlockedExp st.client.blockingUntil st.server.blockingUntil now
+  let n := st.net.peekAggregateDelay now
+  let (q, qid, qIsClient) ← peekQueue st (min (min (min s i) b) n)
+  if s = durMax && i = durMax && b = durMax && n = durMax && q = durMax then pure .nothing
+  else if n ≤ s && n ≤ i && n ≤ b && n ≤ q then pure .agg
+  else if b ≤ s && b ≤ i && b ≤ q then pure (.blockExp b bIsClient)
+  else if q ≤ s && q ≤ i then pure (.queue q qid qIsClient)
+  else if i ≤ s then pure (.timer i)
+  else pure (.action s)
+
+/-- branch "aggregate delay": pop it and pick again -/
+def pickAgg (st : St σ) : Except SimFault (St σ) := do
+  let net ← st.net.popAggregateDelay
+  pure { st with net := net }
+
+/-- branch "blocking expiry": clear the expiry, maybe queue an aggregate delay, emit BlockingEnd -/
+def pickBlockExp (st : St σ) (b : Nat) (bIsClient : Bool) : Except SimFault (SimEvent × St σ) := do
+  let sd := st.side bIsClient
+  let st1 := st.setSide bIsClient { sd with blockingUntil := none }
+  let expiry := st.now + b
+  let net ← match (st1.sq.peekBlocking false bIsClient).1 with
+    | some ev =>
+      if ev.time < expiry then
+        match aggDelayOnBlockingExpire st1.sq bIsClient expiry ev (st1.net.agg bIsClient) with
+        | some bd => st1.net.pushAggregateDelay bd expiry bIsClient
+        | none => pure st1.net
+      else pure st1.net
+    | none => pure st1.net
+  pure (⟨.blockingEnd, expiry, bIsClient, false, false, false⟩, { st1 with net := net })
+
+/-- branch "queue": pop the peeked event, moved forward in time if blocking delayed it -/
+def pickQueue (st : St σ) (q : Nat) (qid : Queue) (qIsClient : Bool) : Except SimFault (SimEvent × St σ) := do
+  let r ← st.sq.pop qid qIsClient (st.net.agg qIsClient)
+  match r with
+  | none => .error (.unwrapNone 6)
+  | some (tmp, sq) =>
+    let moved := st.now + q > tmp.time
+    let tmp := if moved then { tmp with time := st.now + q } else tmp
+    let net := if moved then { st.net with ghost := { st.net.ghost with movedByBlocking := st.net.ghost.movedByBlocking + 1 } } else st.net
+    pure (tmp, { st with sq := sq, net := net })
+
+/-- branch "internal timer": turn the due timer into a queued TimerEnd and pick again -/
+def pickTimer (st : St σ) (i : Nat) : Except SimFault (St σ) := do
+  let (ev, st) ← doInternalTimer st (st.now + i)
+  pure { st with sq := st.sq.pushSim ev }
+
+/-- branch "scheduled action": execute the due action, queue its event and pick again -/
+def pickAction (st : St σ) (s : Nat) : Except SimFault (St σ) := do
+  let (ev, st) ← doScheduledAction st (st.now + s)
+  pure { st with sq := st.sq.pushSim ev }
+
 /-- `pick_next`, structural on fuel -/
 def pickNext : Nat → St σ → Except SimFault (Option SimEvent × St σ)
   | 0, _ => .error .fuel
-  | fuel + 1, st => do
-    let now := st.now
-    let s := peekScheduledAction st.client.schedAction st.server.schedAction now
-    let i := peekScheduledInternalTimer st.client.schedTimer st.server.schedTimer now
-    let (b, bIsClient) := peekBlockedExp st.client.blockingUntil st.server.blockingUntil now
-    let n := st.net.peekAggregateDelay now
-    let (q, qid, qIsClient) ← peekQueue st (min (min (min s i) b) n)
-    if s = durMax && i = durMax && b = durMax && n = durMax && q = durMax then pure (none, st) else
-    if n ≤ s && n ≤ i && n ≤ b && n ≤ q then do
-      let net ← st.net.popAggregateDelay
-      pickNext fuel { st with net := net }
-    else if b ≤ s && b ≤ i && b ≤ q then do
-      let sd := st.side bIsClient
-      let st1 := st.setSide bIsClient { sd with blockingUntil := none }
-      let expiry := now + b
-      let net ← match (st1.sq.peekBlocking false bIsClient).1 with
-        | some ev =>
-          if ev.time < expiry then
-            match aggDelayOnBlockingExpire st1.sq bIsClient expiry ev (st1.net.agg bIsClient) with
-            | some bd => st1.net.pushAggregateDelay bd expiry bIsClient
-            | none => pure st1.net
-          else pure st1.net
-        | none => pure st1.net
-      pure (some ⟨.blockingEnd, expiry, bIsClient, false, false, false⟩, { st1 with net := net })
-    else if q ≤ s && q ≤ i then do
-      let r ← st.sq.pop qid qIsClient (st.net.agg qIsClient)
-      match r with
-      | none => .error (.unwrapNone 6)
-      | some (tmp, sq) =>
-        let moved := now + q > tmp.time
-        let tmp := if moved then { tmp with time := now + q } else tmp
-        let net := if moved then { st.net with ghost := { st.net.ghost with movedByBlocking := st.net.ghost.movedByBlocking + 1 } } else st.net
-        pure (some tmp, { st with sq := sq, net := net })
-    else if i ≤ s then do
-      let (ev, st) ← doInternalTimer st (now + i)
-      pickNext fuel { st with sq := st.sq.pushSim ev }
-    else do
-      let (ev, st) ← doScheduledAction st (now + s)
-      pickNext fuel { st with sq := st.sq.pushSim ev }
+  | fuel + 1, st =>
+    match pickDecide st with
+    | .error f => .error f
+    | .ok .nothing => .ok (none, st)
+    | .ok .agg =>
+      match pickAgg st with
+      | .error f => .error f
+      | .ok st => pickNext fuel st
+    | .ok (.blockExp b c) =>
+      match pickBlockExp st b c with
+      | .error f => .error f
+      | .ok (e, st) => .ok (some e, st)
+    | .ok (.queue q qid c) =>
+      match pickQueue st q qid c with
+      | .error f => .error f
+      | .ok (e, st) => .ok (some e, st)
+    | .ok (.timer i) =>
+      match pickTimer st i with
+      | .error f => .error f
+      | .ok st => pickNext fuel st
+    | .ok (.action s) =>
+      match pickAction st s with
+      | .error f => .error f
+      | .ok st => pickNext fuel st
 
 end
 end Mb.Sim
